@@ -1701,6 +1701,20 @@ func main() {
 		}
 	}
 
+	// ---- inputs of the Coq model: the probe expressions and sink contexts of column 0
+	for _, ps := range pcalls[0] {
+		if len(ps.call.Args) == 1 {
+			txt := filt.Text(t, ps.call)
+			enc.Encode(map[string]interface{}{"k": "gexpr", "site": txt[strings.Index(txt, "("):], "coq": e.gexpr(ps.call.Args[0])})
+		}
+	}
+	for _, s := range rcalls[0] {
+		ctx := "return"
+		if s.ctx != nil {
+			ctx = s.ctx.stmt
+		}
+		enc.Encode(map[string]interface{}{"k": "gsink", "site": ctx + " /" + s.par + "/" + s.sink, "coq": e.sinkParent(s.call)})
+	}
 	for _, r := range rules {
 		enc.Encode(r.out)
 	}
